@@ -1,4 +1,17 @@
-"""C12 — freq_response / cascade / parallel / dft / FIR time domain / histories of mutable banks.
+"""C12 — freq_response / cascade / parallel / dft / FIR time domain / histories of mutable banks / the CALL.
+
+The call (entries "call", "dftcall"): `freq_response` is `@elementwise("freq", 1)` around a raw method.  A case is
+a target (filter of any class, cascade / parallel bank, nested), a list of positional and a dict of keyword
+arguments (call through the bound method or through the class, `self` possibly by keyword) holding frequency
+objects of 33 python kinds (number spellings, None, str, list/tuple/deque and subclasses, set/frozenset, generator,
+map, filter, range, enumerate, zip, zip_longest, Stream, Stream subclass, thub, chain, dict, bytes, bytearray,
+list_iterator, tuple_iterator, dict_keys, dict_values, reversed), some elements not numbers.  The impl reports the
+exception of the call, or the scalar, or the eager container (its type must be the type of the frequency object the
+wrapper looked at), or — for a lazy result — what `reads` successive next() show (value / exception / StopIteration).
+The Lean side runs the wrapper model (`freqCall`: dispatch, replaced argument, python's binding in every element
+call) and the specification (`freqCallSpecFull`); Props.C12.freq_call_model_eq_spec proves them equal for all calls.
+`dft` is called with every split of (blk, freqs, normalize) into positional / keyword arguments, `normalize`
+omitted or spelled True/False/1/0/None/"yes"/""/2.5/0.0/[], blocks with and without len().
 
 Tie (float regime): the impl computes with Python complex floats, the Lean model with exact
 Gaussian rationals.  The comparison is driven from the exact side: points w = e^{-j omega} on the
@@ -42,9 +55,19 @@ RULE = ("filters ZFilter/LinearFilter(b, a) and z-expressions with small int / d
         "steps over a heap of 1..3 (nested, shared) banks and 2..5 filters: in-place list operations (13 kinds, on the "
         "root or through an inner reference) interleaved with >= 2 uses (freq_response / numpoly,denpoly / is_lti / "
         "call), at least one list operation between the first and the last use, frequencies shared between the uses, "
-        "every step compared.  Non-trivial = the impl returned "
+        "every step compared; CALLS: 14 call shapes of freq_response (frequency by position / by keyword, through the "
+        "method or the class, self by keyword, keyword order, stray keyword, frequency twice, extra positional, "
+        "nothing, wrong keyword, self missing) x 33 kinds of frequency object (sizes 0..4, non-numbers among the "
+        "elements) x filter classes / cascade / parallel / nested targets, lazy results read len+2 times; dft with every "
+        "positional/keyword split, 11 spellings of normalize incl. omitted, 9 block kinds (5 with len(), 4 read-once), "
+        "10 kinds of frequency object, unbindable calls.  Non-trivial = the impl returned "
         "at least one finite non-zero value, a predicted nan or a predicted exception; distinct = distinct JSON case")
 TRUSTED = [
+    "the call: hand-written Lean model ALV/Model/C12Call.lean of lazy_misc.elementwise's wrapper (decorator default, "
+    "positional test, kwargs[name], Iterable / STR_TYPES / SOME_GEN_TYPES / Stream tests, replaced argument, "
+    "type(arg)(data)), of python's binding of (self, freq) resp. (blk, freqs, normalize=True), of generator "
+    "expressions (a generator that raised is finished) — the classification python kind -> model Kind "
+    "(harness PYKINDS) and `truthiness of the normalize object` are computed by the harness",
     "histories: hand-written Lean model of python's list operations on a heap of banks (pyIndex / pyClamp / slice "
     "bounds; `bank *= k` binds a NEW bank because FilterList defines __mul__) — validated step by step against the "
     "identity of the members of the real lists; uses are answered on the snapshot (Bank.resp / FIR loop)",
@@ -63,18 +86,26 @@ ASSUMPTIONS = [
     "denominator bounded away from zero at the probed frequency (a-priori rounding bound <= 2e-10), except the exact "
     "nan case: denominator exactly zero at omega = 0 (w = 1 is the only point of the circle that floats hit exactly)",
     "frequency containers: scalar, list, tuple, deque, set, frozenset, Stream (finite and endless), generator, map, range; "
-    "list_iterator / dict / str are not supported container kinds of elementwise (TypeError today)",
+    "list_iterator / dict_keys / reversed (TypeError always), dict / bytes (TypeError unless empty) and str (not "
+    "iterated) are modelled as what elementwise does today",
+    "the call: a container handed to a BANK as one element (nested containers) and the filter object itself as a "
+    "frequency are outside the model (`unmodelled`, never generated); numpy arrays are not available here",
 ]
 
 MANIFEST = {
-    "text": ("Lean 4 theorems (37, no sorry/axiom) about a hand-written executable model of freq_response "
+    "text": ("Lean 4 theorems (50, no sorry/axiom) about a hand-written executable model of freq_response "
              "(LinearFilter.__init__ normalisation, Poly.__call__ paths, nan test), Cascade/Parallel banks to any "
              "nesting depth, dft and the FIR instance of the generated filter loop: transfer function in every field "
              "and over C at w = exp(-j omega), cascade = product, parallel = sum — for the bank as it is NOW after any "
              "history of in-place list operations and uses on a heap of nested / shared banks (uses are pure and "
              "depend only on the snapshot) —, FIR loop = convolution, "
              "DFT(impulse response) = freq_response, steady state / transient of complex exponentials, dft sum / "
-             "linearity / DC mean, and the cast Q[i] -> C of the executable evaluator; tied to /repo by a differential "
+             "linearity / DC mean, and the cast Q[i] -> C of the executable evaluator; the CALL: the elementwise wrapper "
+             "with python's argument binding equals, for every list of positional and dict of keyword arguments, the "
+             "per-element broadcast over the object bound to freq (scalar -> scalar, list/tuple/deque/set -> same "
+             "kind, generator/Stream/chain -> lazy, read semantics with exceptions mid-stream; unbindable calls -> "
+             "TypeError per element, KeyError without frequency object), dft's default / truthiness / read-once "
+             "blocks / binding; tied to /repo by a differential "
              "correspondence in the float regime (exact Gaussian-rational value vs impl float, a-priori rounding bound)"),
     "note": ("Trusted: Lean kernel, axioms propext/Classical.choice/Quot.sound, the Python correspondence harness "
              "(incl. the omega <-> w mapping by atan2 and the tolerance rule 1e-9*(1+|expected|) with a per-case "
@@ -371,7 +402,7 @@ def gen_tree(rng, maxlen, big):
         if not tree_ok(tree, pts):
             continue
         return {"entry": "tree", "tree": tree, "kind": kind, "pts": [genc(w) for w in pts],
-                "wrap": rng.random() < 0.5}
+                "wrap": rng.random() < 0.5, "by": rng.choice(["pos", "pos", "kw"])}
     return None
 
 
@@ -436,7 +467,8 @@ def gen_freq(rng, maxlen, big):
         if cls == "zexpr" and (not f["b"] or all(gdec(x) == (0, 0) for x in f["a"])):
             cls = "ZFilter"
         return {"entry": "freq", "b": f["b"], "a": f["a"], "ctype": f["ctype"], "kind": kind,
-                "pts": [genc(w) for w in pts], "wrap": rng.random() < 0.5, "cls": cls}
+                "pts": [genc(w) for w in pts], "wrap": rng.random() < 0.5, "cls": cls,
+                "by": rng.choice(["pos", "pos", "kw"])}
     return None
 
 
@@ -455,7 +487,7 @@ def gen_freqd(rng, maxlen, big):
         if not well_conditioned([f], pts):
             continue
         return {"entry": "freqd", "bt": bt, "at": at, "ctype": ctype, "kind": kind,
-                "pts": [genc(w) for w in pts], "wrap": rng.random() < 0.5}
+                "pts": [genc(w) for w in pts], "wrap": rng.random() < 0.5, "by": rng.choice(["pos", "pos", "kw"])}
     return None
 
 
@@ -472,7 +504,7 @@ def gen_bank(rng, maxlen, big):
         if not well_conditioned(bank, pts, bkind):
             continue
         return {"entry": "bank", "bkind": bkind, "bank": bank, "kind": kind,
-                "pts": [genc(w) for w in pts], "wrap": rng.random() < 0.5}
+                "pts": [genc(w) for w in pts], "wrap": rng.random() < 0.5, "by": rng.choice(["pos", "pos", "kw"])}
     return None
 
 
@@ -843,6 +875,8 @@ def hist_use_op(rng, t, snap, pool, big, earlier=()):
     o = {"op": kind, "t": t}
     if kind == "freq":
         o["kind"] = rng.choice(HIST_KINDS)
+        if rng.random() < 0.35:
+            o["by"] = "kw"
     if kind in ("freq", "polys"):
         if o.get("kind") == "scalar":
             pts = [rng.choice(pool)]
@@ -1208,6 +1242,13 @@ def observe(kind, res, npts):
     return {"kind": k, "vals": [cnum(v) for v in vals]}
 
 
+def fr(obj, c, x):
+    """obj.freq_response(x), the frequency object by position or by keyword (Props.C12.freq_call_shapes: the same)"""
+    if c.get("by") == "kw":
+        return obj.freq_response(freq=x)
+    return obj.freq_response(x)
+
+
 def omegas(c):
     oms = [omega_of(gdec_pt(p), c.get("wrap", False)) for p in c["pts"]]
     if c.get("kind") == "scalar" and oms and oms[0] == 0.0 and len(c.get("b", [])) % 2 == 0:
@@ -1311,7 +1352,7 @@ def impl_hist(c):
                 bank[o["i"]], bank[o["j"]] = bank[o["j"]], bank[o["i"]]
             elif k == "freq":
                 oms = [omega_of(gdec_pt(p), wrap) for p in o["pts"]]
-                steps.append(observe(o["kind"], bank.freq_response(container(o["kind"], oms)), len(oms)))
+                steps.append(observe(o["kind"], fr(bank, o, container(o["kind"], oms)), len(oms)))
                 continue
             elif k == "polys":
                 num, den = bank.numpoly, bank.denpoly
@@ -1521,22 +1562,22 @@ def impl(c):
         if e == "freq":
             filt = mk_filter(c, c.get("cls", "ZFilter"))
             oms = omegas(c)
-            return observe(c["kind"], filt.freq_response(container(c["kind"], oms)), len(oms))
+            return observe(c["kind"], fr(filt, c, container(c["kind"], oms)), len(oms))
         if e == "freqd":
             ct = c["ctype"]
             filt = ZFilter(dict((k, py_coeff(x, ct)) for k, x in c["bt"]),
                            dict((k, py_coeff(x, ct)) for k, x in c["at"]))
             oms = omegas(c)
-            return observe(c["kind"], filt.freq_response(container(c["kind"], oms)), len(oms))
+            return observe(c["kind"], fr(filt, c, container(c["kind"], oms)), len(oms))
         if e == "tree":
             bank = build_tree(c["tree"])
             oms = omegas(c)
-            return observe(c["kind"], bank.freq_response(container(c["kind"], oms)), len(oms))
+            return observe(c["kind"], fr(bank, c, container(c["kind"], oms)), len(oms))
         if e == "bank":
             members = [mk_filter(f) for f in c["bank"]]
             bank = (CascadeFilter if c["bkind"] == "cascade" else ParallelFilter)(*members)
             oms = omegas(c)
-            return observe(c["kind"], bank.freq_response(container(c["kind"], oms)), len(oms))
+            return observe(c["kind"], fr(bank, c, container(c["kind"], oms)), len(oms))
         if e == "dft":
             blk = [py_coeff(x, c["btype"]) for x in c["blk"]]
             blk = tuple(blk) if c.get("cont") == "tuple" else blk
@@ -1590,7 +1631,8 @@ def dft_req(c):
     kw = c["kw"]
     if len(set(kw)) != len(kw):
         kw = list(dict.fromkeys(kw))
-    args = [tag(a) for a in c["args"]]
+    # a surplus positional object in third place IS the normalize argument (the int 3: truthy)
+    args = [(True if (a == "extra" and i == 2) else tag(a)) for i, a in enumerate(c["args"])]
     # a keyword that repeats a positional parameter: python raises TypeError (multiple values); the
     # binding model sees the same: the name is not among the parameters still to be filled
     return {"entry": "dftcall", "blk": c["blk"], "bk": DFT_BLK_KINDS[c["bkind"]],
@@ -1625,7 +1667,7 @@ def request(c):
         objs = [({bank_key(o): o[bank_key(o)]} if is_bank(o) else {"b": o["b"], "a": o["a"]}) for o in c["objs"]]
         ops = []
         for o in c["ops"]:
-            r = dict((k, v) for k, v in o.items() if k not in ("kind", "pts"))
+            r = dict((k, v) for k, v in o.items() if k not in ("kind", "pts", "by"))
             if "pts" in o:
                 r["ws"] = o["pts"]
             ops.append(r)
@@ -1915,6 +1957,7 @@ def tally_hist(eng, c, io):
                 eng.count("hist_use_not_compared", k)
             if k == "freq":
                 eng.count("hist_container", o["kind"])
+                eng.count("hist_frequency_passed_by", o.get("by", "pos"))
             if snap is not None:
                 eng.count("hist_depth_at_use", tree_depth(snap))
                 if is_bank(snap):
@@ -1977,6 +2020,7 @@ def tally(eng, c, io):
         eng.count("dft_call_result", ("raises:" + io["err"]) if "err" in io else "list")
         eng.count("regime", "float(tol 1e-9)")
     if e in ("freq", "freqd", "bank", "tree"):
+        eng.count("frequency_passed_by", c.get("by", "pos"))
         eng.count("container", c["kind"])
         eng.count("n_points", min(len(c["pts"]), 8))
         for p in c["pts"]:
@@ -2131,6 +2175,8 @@ def shrink_hist(c):
                     yield put(dict(o, pts=o["pts"][:j] + o["pts"][j + 1:]))
         if o["op"] == "freq" and o["kind"] not in ("list", "scalar"):
             yield put(dict(o, kind="list"))
+        if o["op"] == "freq" and o.get("by") == "kw":
+            yield put(dict((k, v) for k, v in o.items() if k != "by"))
         if o["op"] == "call":
             for xs in _shrink_list(o["xs"]):
                 yield put(dict(o, xs=xs))
@@ -2224,6 +2270,8 @@ def shrink(c):
             yield dict(c, wrap=False)
     if e in ("freq", "freqd", "bank", "tree") and c["kind"] not in ("list", "scalar"):
         yield dict(c, kind="list")
+    if e in ("freq", "freqd", "bank", "tree") and c.get("by") == "kw":
+        yield dict(c, by="pos")
     if e == "tree":
         for t in _shrink_tree(c["tree"]):
             if "cascade" in t or "parallel" in t:
